@@ -62,7 +62,7 @@ ANCHORS = {
 _BUILTIN_METHODS = set(dir(list) + dir(dict) + dir(str) + dir(bytes) + dir(bytearray) + dir(set) + dir(int) + dir(float)) | {
     'put', 'get_nowait', 'put_nowait', 'cancel', 'done', 'write', 'drain', 'close', 'wait_closed', 'read', 'readline', 'readexactly', 'acquire', 'release',
     'locked', 'debug', 'info', 'warning', 'error', 'exception', 'result', 'set', 'wait', 'is_set', 'total_seconds', 'hex', 'flush', 'sleep'}
-_IMMUTABLE_CALLS = {'timedelta', 'frozenset', 'bytes', 'int', 'float', 'str', 'tuple', 'bool', 'date', 'time', 'datetime'}
+_IMMUTABLE_CALLS = {'timedelta', 'frozenset', 'bytes', 'int', 'float', 'str', 'tuple', 'bool', 'date', 'time', 'datetime', 'slice'}
 MAX_DEPTH = 4
 
 
@@ -417,6 +417,19 @@ class _Idioms(ast.NodeTransformer):
             return _fix(ast.JoinedStr(values=values), node)
         return node
 
+    def visit_Subscript(self, node):
+        node = self.generic_visit(node)
+        sl = node.slice
+        if isinstance(sl, ast.Call) and isinstance(sl.func, ast.Name) and sl.func.id == 'slice' and 1 <= len(sl.args) <= 3 and not sl.keywords:
+            a = list(sl.args)
+            none = lambda x: None if (isinstance(x, ast.Constant) and x.value is None) else x
+            if len(a) == 1:
+                lo, hi, stp = None, none(a[0]), None
+            else:
+                lo, hi, stp = none(a[0]), none(a[1]), (none(a[2]) if len(a) == 3 else None)
+            node.slice = _fix(ast.Slice(lower=lo, upper=hi, step=stp), sl)
+        return node
+
     @staticmethod
     def _unbool(e):
         """bool(E) where only the truth value is used -> E"""
@@ -435,7 +448,68 @@ class _Idioms(ast.NodeTransformer):
                 return _fix(ast.Compare(left=node.operand.left, ops=[flip[type(op)]()], comparators=node.operand.comparators), node)
         return node
 
+    @staticmethod
+    def _leading_walrus(test):
+        """the NamedExpr (Name target) that is evaluated first and unconditionally when `test` is evaluated, with a setter replacing it; else None"""
+        holder, field, idx = None, None, None
+        cur = test
+        path = []
+        while True:
+            if isinstance(cur, ast.NamedExpr) and isinstance(cur.target, ast.Name):
+                return cur, path
+            if isinstance(cur, ast.Compare):
+                path.append((cur, 'left', None)); cur = cur.left
+            elif isinstance(cur, ast.BoolOp):
+                path.append((cur, 'values', 0)); cur = cur.values[0]
+            elif isinstance(cur, ast.UnaryOp) and isinstance(cur.op, ast.Not):
+                path.append((cur, 'operand', None)); cur = cur.operand
+            elif isinstance(cur, ast.Attribute):
+                path.append((cur, 'value', None)); cur = cur.value
+            elif isinstance(cur, ast.Call) and isinstance(cur.func, ast.Attribute):
+                path.append((cur.func, 'value', None)); cur = cur.func.value
+            elif isinstance(cur, ast.Subscript):
+                path.append((cur, 'value', None)); cur = cur.value
+            else:
+                return None, None
+
+    def _hoist_walrus(self, test):
+        """-> (assignments, new test) : leading walruses of the test turned into assignments that precede it"""
+        pre = []
+        for _ in range(4):
+            w, path = self._leading_walrus(test)
+            if w is None:
+                break
+            name = _fix(ast.Name(id=w.target.id, ctx=ast.Load()), w)
+            pre.append(_fix(ast.Assign(targets=[ast.Name(id=w.target.id, ctx=ast.Store())], value=w.value, type_comment=None), w))
+            if not path:
+                test = name
+            else:
+                holder, field, idx = path[-1]
+                if idx is None:
+                    setattr(holder, field, name)
+                else:
+                    getattr(holder, field)[idx] = name
+        return pre, test
+
     def _body(self, stmts):
+        # `if (x := E) ...:` -> `x = E; if x ...:` ; `while (x := E) ...:` -> `while True: x = E; if not (x ...): break; ...` (continue re-evaluates E either way)
+        hoisted = []
+        for st in stmts:
+            if isinstance(st, ast.If):
+                pre, t = self._hoist_walrus(st.test)
+                if pre:
+                    for a in pre: ast.fix_missing_locations(a)
+                    st.test = t
+                    hoisted.extend(pre)
+            elif isinstance(st, ast.While) and not st.orelse:
+                pre, t = self._hoist_walrus(st.test)
+                if pre:
+                    brk = _fix(ast.If(test=_negate(t), body=[_fix(ast.Break(), st)], orelse=[]), st)
+                    st.test = _fix(ast.Constant(True), st)
+                    st.body = pre + [brk] + st.body
+                    ast.fix_missing_locations(st)
+            hoisted.append(st)
+        stmts = hoisted
         out = []
         i = 0
         while i < len(stmts):
@@ -991,7 +1065,7 @@ class Inliner:
         return None
 
     def eligible(self, qual, d):
-        if is_anchor(self.module, qual):
+        if is_anchor(self.module, qual) and qual not in getattr(self, 'foreign', ()):
             return 'anchor'
         decos = self._decos(d)
         if any(x not in ('staticmethod', 'classmethod', 'property') for x in decos):
@@ -1507,12 +1581,187 @@ def _expand_decorators(tree, report):
 
 
 # ------------------------------------------------------------------------------------------------- driver
+# ------------------------------------------------------------------------------------------------- R7 callable chosen from a table
+def _dispatch_pass(fn):
+    """`f = {K1: A, K2: B}[key]` / `f = A if cond else B`  ...  `x = f(args)`   ->   the choice made at the call:
+    `if key == K1: x = A(args)  else: x = B(args)` (a key outside the table still raises where the table was indexed).
+    Only when f is a local bound once and used once, as the callee of a call that is a whole statement's value, the alternatives are plain
+    attribute / name expressions, and nothing between binding and call can change key / cond (no assignment to the names they read)."""
+    count = 0
+    def names_read(e):
+        return {n.id for n in ast.walk(e) if isinstance(n, ast.Name)} | {ast.unparse(n) for n in ast.walk(e) if isinstance(n, ast.Attribute)}
+    def plain(e):
+        return isinstance(e, ast.Name) or (isinstance(e, ast.Attribute) and plain(e.value))
+    def uses(name):
+        return [n for n in ast.walk(fn) if isinstance(n, ast.Name) and n.id == name]
+    def do_block(stmts):
+        nonlocal count
+        i = 0
+        while i < len(stmts):
+            st = stmts[i]
+            for field in ('body', 'orelse', 'finalbody'):
+                v = getattr(st, field, None)
+                if isinstance(v, list) and v and isinstance(v[0], ast.stmt) and not isinstance(st, (ast.FunctionDef, ast.AsyncFunctionDef, ast.ClassDef)):
+                    do_block(v)
+            for h in getattr(st, 'handlers', []) or []:
+                do_block(h.body)
+            alts = None
+            if isinstance(st, ast.Assign) and len(st.targets) == 1 and isinstance(st.targets[0], ast.Name):
+                v = st.value
+                name = st.targets[0].id
+                if isinstance(v, ast.Subscript) and isinstance(v.value, ast.Dict) and v.value.keys and all(k is not None and plain(k) or isinstance(k, ast.Constant) for k in v.value.keys) \
+                        and all(plain(x) for x in v.value.values) and _pure(v.slice):
+                    key = v.slice
+                    alts = [(ast.Compare(left=copy.deepcopy(key), ops=[ast.Eq()], comparators=[copy.deepcopy(k)]), x) for k, x in zip(v.value.keys, v.value.values)]
+                    guard = ast.If(test=ast.Compare(left=copy.deepcopy(key), ops=[ast.NotIn()], comparators=[ast.Tuple(elts=[copy.deepcopy(k) for k in v.value.keys], ctx=ast.Load())]),
+                                   body=[ast.Raise(exc=ast.Call(func=ast.Name(id='KeyError', ctx=ast.Load()), args=[copy.deepcopy(key)], keywords=[]), cause=None)], orelse=[])
+                    reads = names_read(key)
+                elif isinstance(v, ast.IfExp) and plain(v.body) and plain(v.orelse) and _pure(v.test):
+                    alts = [(copy.deepcopy(v.test), v.body), (None, v.orelse)]
+                    guard = None
+                    reads = names_read(v.test)
+            if alts:
+                us = uses(name)
+                loads = [u for u in us if isinstance(u.ctx, ast.Load)]
+                stores = [u for u in us if isinstance(u.ctx, ast.Store)]
+                site = None
+                if len(loads) == 1 and len(stores) == 1:
+                    # the statement (later in this block or nested in a later statement of it) whose value is the call
+                    for j in range(i + 1, len(stmts)):
+                        for cand in ast.walk(stmts[j]):
+                            if isinstance(cand, (ast.Assign, ast.Expr, ast.Return)) and cand.value is not None:
+                                c = cand.value.value if isinstance(cand.value, ast.Await) else cand.value
+                                if isinstance(c, ast.Call) and c.func is loads[0]:
+                                    site = (j, cand, c)
+                    if site is not None:
+                        j, cand, c = site
+                        between = stmts[i + 1:j + 1]
+                        written = set()
+                        for b in between:
+                            for n in ast.walk(b):
+                                if isinstance(n, ast.Name) and isinstance(n.ctx, (ast.Store, ast.Del)):
+                                    written.add(n.id)
+                                if isinstance(n, ast.Attribute) and isinstance(n.ctx, (ast.Store, ast.Del)):
+                                    written.add(ast.unparse(n))
+                        in_loop = any(isinstance(x, (ast.For, ast.While, ast.AsyncFor)) and any(y is cand for y in ast.walk(x)) for x in between)
+                        if not (written & reads) and not in_loop:
+                            # build the chain
+                            chain = None
+                            for test, callee in reversed(alts if guard is None else alts):
+                                c.func = copy.deepcopy(callee)
+                                body = copy.deepcopy(cand)
+                                if chain is None:
+                                    chain = [body]
+                                else:
+                                    chain = [ast.If(test=test, body=[body], orelse=chain)]
+                            new = chain[0]
+                            _fix(new, cand)
+                            ast.fix_missing_locations(new)
+                            # replace cand by new, in place
+                            replaced = False
+                            for holder in [stmts] + [getattr(x, f) for b in between for x in ast.walk(b) for f in ('body', 'orelse', 'finalbody') if isinstance(getattr(x, f, None), list)] + \
+                                    [h.body for b in between for x in ast.walk(b) for h in (getattr(x, 'handlers', []) or [])]:
+                                for k, y in enumerate(holder):
+                                    if y is cand:
+                                        holder[k] = new
+                                        replaced = True
+                            if replaced:
+                                if guard is not None:
+                                    stmts[i] = _fix(guard, st)
+                                    ast.fix_missing_locations(stmts[i])
+                                else:
+                                    del stmts[i]
+                                    i -= 1
+                                count += 1
+            i += 1
+    do_block(fn.body)
+    return count
+
+# ------------------------------------------------------------------------------------------------- R-1 an anchor that only forwards
+def _anchor_alias_pass(module, tree, report):
+    """A function the rules are anchored in may have been moved: its body now lives in a helper (a module-level function or another method) and
+    the anchored name only forwards -- `def _extract_header(x): return extract_can_header(x)`, or `_build_header = staticmethod(build_header)` in
+    the class body.  The anchor is restored: a class-level alias becomes a forwarding def, and every other call of the helper is rewritten
+    into a call of the anchor (same arguments), so that the inliner afterwards folds the helper's body back into the anchor and the call sites
+    name the anchor again.  Only for static / module-level anchors (no receiver to invent)."""
+    funcs = {st.name: st for st in tree.body if isinstance(st, ast.FunctionDef)}
+    n = 0
+    for cls in [c for c in tree.body if isinstance(c, ast.ClassDef)]:
+        # (a) class-level alias of an anchored name
+        for i, st in enumerate(list(cls.body)):
+            if isinstance(st, ast.Assign) and len(st.targets) == 1 and isinstance(st.targets[0], ast.Name) and is_anchor(module, f"{cls.name}.{st.targets[0].id}"):
+                v = st.value
+                if isinstance(v, ast.Call) and isinstance(v.func, ast.Name) and v.func.id == 'staticmethod' and len(v.args) == 1 and not v.keywords:
+                    v = v.args[0]
+                    static = True
+                else:
+                    static = False
+                if isinstance(v, ast.Name) and v.id in funcs and static and not any(isinstance(m, ast.FunctionDef) and m.name == st.targets[0].id for m in cls.body):
+                    f = funcs[v.id]
+                    a = f.args
+                    if a.vararg or a.kwarg or a.posonlyargs or a.kwonlyargs:
+                        continue
+                    call = ast.Call(func=ast.Name(id=v.id, ctx=ast.Load()), args=[ast.Name(id=x.arg, ctx=ast.Load()) for x in a.args], keywords=[])
+                    d = ast.FunctionDef(name=st.targets[0].id, args=copy.deepcopy(a), body=[ast.Return(value=call)],
+                                        decorator_list=[ast.Name(id='staticmethod', ctx=ast.Load())], returns=None, type_comment=None, type_params=[])
+                    cls.body[cls.body.index(st)] = _fix(d, st)
+                    ast.fix_missing_locations(d)
+                    n += 1
+        # (b) anchored static methods that only forward to a module-level helper
+        for m in cls.body:
+            if not isinstance(m, ast.FunctionDef) or not is_anchor(module, f"{cls.name}.{m.name}"):
+                continue
+            decos = [d.id for d in m.decorator_list if isinstance(d, ast.Name)]
+            if 'staticmethod' not in decos:
+                continue
+            body = [b for b in m.body if not (isinstance(b, ast.Expr) and isinstance(b.value, ast.Constant))]
+            if len(body) != 1 or not isinstance(body[0], ast.Return) or not isinstance(body[0].value, ast.Call):
+                continue
+            c = body[0].value
+            if not (isinstance(c.func, ast.Name) and c.func.id in funcs and not c.keywords and [ast.unparse(x) for x in c.args] == [x.arg for x in m.args.args]):
+                continue
+            if is_anchor(module, c.func.id):
+                continue
+            helper = c.func.id
+            # rewrite the other calls of the helper
+            for node in ast.walk(tree):
+                if isinstance(node, ast.Call) and isinstance(node.func, ast.Name) and node.func.id == helper and node is not c:
+                    node.func = _fix(ast.Attribute(value=ast.Name(id=cls.name, ctx=ast.Load()), attr=m.name, ctx=ast.Load()), node.func)
+                    n += 1
+    report['anchor_aliases'] = n
+    return tree
+
 def exported_constants(tree):
     return collect_constants(tree).module
 
-def normalize_module(name, tree, sibling_consts=None):
-    """-> (tree, report).  `sibling_consts`: {module name -> {NAME -> expr}} for `from .x import NAME`"""
+_BUILTINS_OK = set(dir(__import__('builtins'))) | {'logger'}
+
+def exported_functions(module, tree):
+    """module-level helper functions of a (normalised) module that another module may have inlined where it imports them: not anchors,
+    closed (they read their parameters, their own locals and built-ins only), no decorators"""
+    out = {}
+    for st in tree.body:
+        if isinstance(st, ast.FunctionDef) and not st.decorator_list and not is_anchor(module, st.name):
+            bound = _bound_names(st)
+            ann = set()
+            for a_ in [st.returns] + [x.annotation for x in st.args.args + st.args.kwonlyargs] + [n.annotation for n in ast.walk(st) if isinstance(n, ast.AnnAssign)]:
+                if a_ is not None:
+                    ann |= {id(n) for n in ast.walk(a_)}
+            free = {n.id for n in ast.walk(st) if isinstance(n, ast.Name) and isinstance(n.ctx, ast.Load) and id(n) not in ann} - bound - _BUILTINS_OK
+            if not free:
+                out[st.name] = st
+    return out
+
+def normalize_module(name, tree, sibling_consts=None, sibling_funcs=None):
+    """-> (tree, report).  `sibling_consts`: {module name -> {NAME -> expr}} for `from .x import NAME`;
+    `sibling_funcs`: {module name -> {name -> FunctionDef}} closed helpers of sibling modules (`from .x import helper`)"""
     report = {'constants': 0, 'aliases': 0, 'inlined': {}, 'dropped': [], 'not_inlined': {}}
+    imported_funcs = {}
+    for st in tree.body:
+        if isinstance(st, ast.ImportFrom) and st.level == 1 and sibling_funcs and st.module in sibling_funcs and st.module != name:
+            for al in st.names:
+                if al.name in sibling_funcs[st.module]:
+                    imported_funcs[al.asname or al.name] = copy.deepcopy(sibling_funcs[st.module][al.name])
     imported = {}
     for st in tree.body:
         if isinstance(st, ast.ImportFrom) and st.level == 1 and sibling_consts and st.module in sibling_consts:
@@ -1520,12 +1769,21 @@ def normalize_module(name, tree, sibling_consts=None):
                 if al.name in sibling_consts[st.module]:
                     imported[al.asname or al.name] = sibling_consts[st.module][al.name]
     tree = _expand_decorators(tree, report)
+    tree = _anchor_alias_pass(name, tree, report)
     info = collect_constants(tree, imported)
     cp = _ConstProp(info)
     tree = cp.visit(tree)
     report['constants'] = cp.count
     tree = _Idioms().visit(tree)
+    report['dispatch'] = 0
+    for n in ast.walk(tree):
+        if isinstance(n, (ast.FunctionDef, ast.AsyncFunctionDef)):
+            report['dispatch'] += _dispatch_pass(n)
     inl = Inliner(name, tree)
+    for nm_, d_ in imported_funcs.items():
+        if nm_ not in inl.funcs and not any(isinstance(n, ast.Name) and n.id == nm_ and isinstance(n.ctx, ast.Store) for n in ast.walk(tree)):
+            inl.funcs[nm_] = d_
+            inl.foreign = getattr(inl, 'foreign', set()) | {nm_}
     inl.run()
     report['inlined'] = dict(inl.inlined)
     report['dropped'] = getattr(inl, 'dropped', [])
